@@ -405,8 +405,13 @@ pub struct PrefixInformation {
 impl PrefixInformation {
     /// Validates the prefix information option against check a, b, c in
     /// <https://www.rfc-editor.org/rfc/rfc4862#section-5.5.3>
+    ///
+    /// A prefix length that no IPv6 prefix can have, or a multicast prefix
+    /// (from which no unicast address can be formed), is not valid either.
     pub fn is_valid_prefix_info(&self) -> bool {
         self.flags.contains(PrefixInfoFlags::ADDRCONF)
+            && self.prefix_len <= 128
+            && !self.prefix.is_multicast()
             && !self.prefix.is_link_local()
             && self.preferred_lifetime <= self.valid_lifetime
     }
